@@ -35,7 +35,8 @@ MkRS(kf, kg) ==
                        \* a cast that parses text (the multi-threaded recorder supplies many different `s`)
                        [name |-> S("r8"), expr |-> VecE(<<Un("year", Un("datetime", Ref(S("s")))), Bin("lt", Un("datetime", Ref(S("s"))), Un("datetime", Val(St("2015-07-30T03:26:13Z"))))>>)] >>, 1, IF NRules < 8 THEN NRules ELSE 8),
    funcs |-> << [name |-> S("f"), cacheable |-> TRUE, suspend |-> kf, script |-> Echo],
-                [name |-> S("g"), cacheable |-> FALSE, suspend |-> kg, script |-> Echo],
+                \* (g doubles its Int argument: f and g must be told apart by their results, not only by the log)
+                [name |-> S("g"), cacheable |-> FALSE, suspend |-> kg, script |-> <<[r |-> "double"]>>],
                 [name |-> S("h"), cacheable |-> FALSE, suspend |-> kg, script |-> <<[r |-> "fail", msg |-> S("h failed")]>>] >>,
    syms |-> << <<S("k"), I(10 + kf + 3 * kg)>> >>]
 \* Shape = "full": the three-rule ruleset, inputs all equal or all different.
@@ -49,8 +50,11 @@ DecS(n) == IF n < 10 THEN <<48 + n>> ELSE DecS(n \div 10) \o <<48 + (n % 10)>>
 ManyRS(kf, kg) == LET full == MkRS(kf, kg) IN
   [full EXCEPT !.rules = [k \in 1..NRules |-> [name |-> <<114>> \o DecS(k),
                                                  expr |-> IF k % 7 = 0 THEN Call(S("f"), Bin("add", A, Val(I(k \div 7)))) ELSE Bin("add", A, Val(I(k)))]]]
+\* Shape = "plain": no user functions at all; rules r4 (reaches an unregistered function when a < 2), r5, r6
+PlainRS(kf, kg) == LET full == MkRS(kf, kg) IN [full EXCEPT !.rules = SubSeq(full.rules, 4, 6), !.funcs = <<>>]
 SingleRS(kf, kg) == LET full == MkRS(kf, kg) IN [full EXCEPT !.rules = <<full.rules[2]>>]
-TheRS == IF Shape = "single" THEN SingleRS(cfg.kf, cfg.kg) ELSE IF Shape = "many" THEN ManyRS(cfg.kf, cfg.kg) ELSE MkRS(cfg.kf, cfg.kg)
+TheRS == IF Shape = "single" THEN SingleRS(cfg.kf, cfg.kg) ELSE IF Shape = "many" THEN ManyRS(cfg.kf, cfg.kg)
+         ELSE IF Shape = "plain" THEN PlainRS(cfg.kf, cfg.kg) ELSE MkRS(cfg.kf, cfg.kg)
 \* K > 5 is the scale configuration: a user function that suspends K times (an evaluation polled hundreds of times)
 Ks == IF K <= 5 THEN 0..K ELSE {0, K}
 Init == /\ cfg \in [kf : Ks, kg : Ks, same : BOOLEAN]
